@@ -20,7 +20,7 @@ from harness.result import Outcome
 
 PROP = 'C18'
 TEXTS = [
-    'def f(a, b=1):\n    return a + b\nclass C:\n    x = [1, 2,\n  3]\nfor i in y: pass\n',
+    'def f(a, b=1):\n    return a + b\nclass C:\n    x = [1, 2,\n  3]\nfor i in y: pass\nw = (n:=10) + d[a:=b]\n',
     'if x:\n  y = (1,\n def g(): $\n    return )\nelse\n  z\nimport os, sys\nlambda: (yield)\n',
     'try:\n    f"{a!r:>{w}}"\nexcept E as e:\n    raise\nwith a as b, c as d:\n    del x\nasync def h():\n    await q\n',
     'x = 1;y = 2\n\n\n\nclass D(B):\n\tdef m(self): return self\n@dec\ndef k(): pass\nprint((1,\n2)\n',
@@ -48,6 +48,16 @@ def program(version, text, kinds):
             out.append(['eval|%s|%s' % (version, digest(text)), digest(e.dump(indent=None))])
         except Exception as ex:  # noqa
             out.append(['eval|%s|%s' % (version, digest(text)), digest('raised:' + type(ex).__name__)])
+    if 'errors' in kinds:
+        # strict parses from other start symbols (on the pinned tree they raise: the outcome is part of the result,
+        # and whatever they do must stay inside the call)
+        res = []
+        for sym, src in (('expr', '1+2'), ('stmt', 'x = 1\n'), ('atom', '(a)')):
+            try:
+                res.append(g.parse(src, error_recovery=False, start_symbol=sym).dump(indent=None))
+            except Exception as ex:  # noqa
+                res.append('raised:' + type(ex).__name__)
+        out.append(['starts|%s|%s' % (version, digest(text)), digest(repr(res))])
     if 'tokens' in kinds:
         from parso.python.tokenize import tokenize
         from parso.utils import parse_version_string
@@ -65,8 +75,11 @@ from checks.C18 import program
 calls = json.load(sys.stdin)
 out = {}
 for version, text in calls:
-    for key, d in program(version, text, ('errors', 'tokens')):
-        out[key] = d
+    try:
+        for key, d in program(version, text, ('errors', 'tokens')):
+            out[key] = d
+    except Exception as e:      # the reference run records a failing call; the comparison then shows it
+        out['failed|' + version + '|' + text[:20]] = type(e).__name__
 print(json.dumps(out))
 '''
 
@@ -137,7 +150,7 @@ def run_once(tid, progs, schedule, cold, fresh, fp_warm, rng, line_mode=False):
         for key, d in (res or []):
             events.append({'thread': t, 'key': key, 'digest': interned.setdefault(d, len(interned) + 1),
                            'fresh': interned.setdefault(fresh.get(key, 'missing:' + key), len(interned) + 1)})
-    return {'id': tid, 'events': events, 'expected': 4 * len(progs), 'warm': not cold,
+    return {'id': tid, 'events': events, 'expected': 5 * len(progs), 'warm': not cold,
             'fpBefore': interned.setdefault(fp0, len(interned) + 1), 'fpAfter': interned.setdefault(fp1, len(interned) + 1),
             'fpWarm': interned.setdefault(fp_warm, len(interned) + 1),
             'raised': ';'.join(['%s:%s' % kv for kv in sorted(r.errors.items(), key=str)] + run_once.errors[:2]),
@@ -175,13 +188,13 @@ def run(tier):
                 out.drift.append('Threads spec violates %s' % r.violated)
         # one version from each side of the 3.8 split (the token patterns differ there), in random thread order
         va, vb = rng.choice(VERSIONS[:2]), rng.choice(VERSIONS[2:])
-        calls = [[v, x] for v in (va, vb) for x in TEXTS]
+        calls = [[v, x] for v in sorted((va, vb), key=VERSIONS.index) for x in TEXTS]
         fresh = oracle(calls)
         traces = []
         n_cold = 40 if tier == 'quick' else 400
         plan = [(s, True) for s in s1] + [(s, False) for s in s2]
-        if tier == 'quick' and len(plan) > 420:
-            plan = rng.sample(plan, 420)
+        if tier == 'quick' and len(plan) > 300:
+            plan = rng.sample(plan, 300)
         for i, (s, same) in enumerate(plan):
             progs = {1: (va, TEXTS[i % 4]), 2: (va if same else vb, TEXTS[(i + 1 + i // 4) % 4])}
             cold = i < n_cold or i % 9 == 0
@@ -218,8 +231,9 @@ def run(tier):
                     traces.append(t)
         out.cov(line_granularity_runs=nline)
         # sequential first-use orders of three grammar versions, each call after a prefix of other calls
-        vs3 = rng.sample(VERSIONS, 3)
-        fresh3 = oracle([[v, x] for v in vs3 for x in TEXTS])
+        # one version from before the 3.8 split and two others; the reference interpreter sees them oldest first
+        vs3 = [rng.choice(VERSIONS[:2])] + rng.sample(VERSIONS[2:], 2)
+        fresh3 = oracle([[v, x] for v in sorted(vs3, key=VERSIONS.index) for x in TEXTS])
         for j, perm in enumerate(itertools.permutations(vs3)):
             sched.reset_memo()
             events = []
@@ -248,6 +262,7 @@ def run(tier):
         lits = inputs.escape_literals()
         hist_texts = ['x = %s\n' % l for l in rng.sample(lits, min(len(lits), 60 if tier == 'quick' else 400))]
         hist_texts += [s + '\n' for s in rng.sample(_semctx.STMTS, 30 if tier == 'quick' else len(_semctx.STMTS))]
+        hist_texts += ['a = 1+2', 'foo', 'x = (1,\n 2)', 'def f(x):\n    return x | 1', 'y = not z']   # no final line break
         hist_texts = sorted(set(hist_texts))
         vh = rng.choice(VERSIONS)
         fresh_h = oracle([[vh, x] for x in hist_texts])
@@ -268,7 +283,7 @@ def run(tier):
                     events.append({'thread': 0, 'key': key, 'digest': I.setdefault(d, len(I) + 1),
                                    'fresh': I.setdefault(fresh_h.get(key, 'missing'), len(I) + 1)})
             fp1 = sched.fingerprint()[0]
-            traces.append({'id': 200000 + j, 'events': events, 'expected': 4 * len(order), 'warm': True,
+            traces.append({'id': 200000 + j, 'events': events, 'expected': 5 * len(order), 'warm': True,
                            'fpBefore': I.setdefault(fp0, len(I) + 1), 'fpAfter': I.setdefault(fp1, len(I) + 1),
                            'fpWarm': I.setdefault(fp1, len(I) + 1), 'raised': ';'.join(herr[:2]),
                            'schedule': ['history', vh, j], 'progs': {'order': [t[:40] for t in order[:12]]}, 'cold': False,
@@ -296,7 +311,7 @@ def run(tier):
                 schedules_same_grammar=len(s1), schedules_two_grammars=len(s2), cold_runs=sum(1 for t in traces if t['cold']),
                 yield_points_per_run=traces[0]['yields'],
                 rule='schedules = every complete interleaving of the Threads spec with <= 3 preemptions (2 threads, same '
-                     'grammar; <= 2 (quick) with two grammars), sampled to 420 in quick; each imposed on real threads; cold '
+                     'grammar; <= 2 (quick) with two grammars), sampled to 300 in quick; each imposed on real threads; cold '
                      'runs start from emptied memo tables (first-use races); + all 6 sequential first-use orders of 3 '
                      'versions; non-trivial = a schedule that actually switches threads')
         out.sample({'schedule': traces[3]['schedule'], 'programs': traces[3]['progs'], 'events': traces[3]['events'][:3]})
